@@ -206,15 +206,133 @@ Definition level (E : list edge) (a : A) : nat := length (neg_targets A eqb E) -
 Lemma anti_level_le E a : anti_level E a <= length (neg_targets A eqb E).
 Proof. unfold anti_level. apply filter_length. Qed.
 
-Lemma above_edge E h c s b : In (h, c, s) E -> above E h b = true -> above E c b = true.
+Section WithE.
+Variable E : list edge.
+Hypothesis Hncf : forall b, In b (neg_targets A eqb E) ->
+  exists R, reach A eqb E b = Some R /\ closes_neg_cycle A eqb E b R = false.
+
+Lemma above_edge h c s b : In b (neg_targets A eqb E) -> In (h, c, s) E -> above E h b = true -> above E c b = true.
 Proof.
-  intros He Hb. unfold above in *. apply orb_true_iff in Hb. apply orb_true_iff. right.
+  intros HbN He Hb. unfold above in *. destruct (Hncf b HbN) as [R [Er _]]. rewrite Er in *.
+  apply reach_spec in Er. destruct Er as [E1 E2].
+  apply orb_true_iff in Hb. apply orb_true_iff. right. apply (mem_spec A eqb eqb_spec).
   destruct Hb as [Hb|Hb].
-  - apply eqb_spec in Hb. subst b. destruct (reach A eqb E h) as [R|] eqn:Er.
-    + apply (mem_spec A eqb eqb_spec). apply reach_spec in Er. destruct Er as [E1 _]. apply E1.
-      apply (succs_In E h c s He).
-    + (* reach failed for h: cannot conclude; handled by the caller through neg_targets *)
-      exfalso. revert Er. admit_placeholder.
-Abort.
+  - apply eqb_spec in Hb. subst b. apply E1. apply (succs_In E h c s He).
+  - apply (mem_spec A eqb eqb_spec) in Hb. apply (E2 h Hb). apply (succs_In E h c s He).
+Qed.
+
+Lemma neg_target_In h c : In (h, c, true) E -> In c (neg_targets A eqb E).
+Proof.
+  intro He. unfold neg_targets. apply (dedup_In A eqb eqb_spec). apply in_map_iff. exists (h, c, true).
+  split; [reflexivity|]. apply filter_In. split; [exact He|reflexivity].
+Qed.
+
+Lemma level_pos h c : In (h, c, false) E -> level E c <= level E h.
+Proof.
+  intro He. unfold level. assert (anti_level E h <= anti_level E c); [|lia].
+  unfold anti_level. apply filter_length_le. intros b HbN Hb. apply (above_edge h c false b HbN He Hb).
+Qed.
+
+Lemma level_neg h c : In (h, c, true) E -> level E c < level E h.
+Proof.
+  intro He. unfold level. pose proof (anti_level_le E c) as Hc.
+  assert (anti_level E h < anti_level E c); [|lia].
+  unfold anti_level. pose proof (neg_target_In h c He) as HcN.
+  apply (filter_length_lt _ _ _ c); [|exact HcN| |].
+  - intros b HbN Hb. apply (above_edge h c true b HbN He Hb).
+  - unfold above. rewrite (eqb_refl A eqb eqb_spec). reflexivity.
+  - unfold above. destruct (Hncf c HcN) as [R [Er Hcl]]. rewrite Er.
+    unfold closes_neg_cycle in Hcl.
+    destruct (eqb c h || mem h R) eqn:Ek; [|reflexivity]. exfalso.
+    assert (existsb (fun e : edge => snd e && eqb (snd (fst e)) c && (eqb (fst (fst e)) c || mem (fst (fst e)) R)) E = true) as K.
+    { apply existsb_exists. exists (h, c, true). split; [exact He|]. simpl.
+      rewrite (eqb_refl A eqb eqb_spec). simpl. rewrite (eqb_sym A eqb eqb_spec h c). exact Ek. }
+    rewrite K in Hcl. discriminate.
+Qed.
+End WithE.
+
+Lemma edges_In cs c h l : In c cs -> In h (clause_heads c) -> In l (clause_body c) ->
+  In (h, lit_atom l, match l with Pos _ => false | Neg _ => true end) (edges A cs).
+Proof.
+  intros Hc Hh Hl. unfold edges. apply in_flat_map. exists c. split; [exact Hc|].
+  unfold edges_clause. apply in_flat_map. exists h. split; [exact Hh|].
+  apply in_map_iff. exists l. split; [|exact Hl]. destruct l; reflexivity.
+Qed.
+
+Theorem neg_cycle_free_stratified cs :
+  neg_cycle_free A eqb cs = Some true -> exists lvl, stratified_prog lvl cs.
+Proof.
+  unfold neg_cycle_free, neg_cycle_free_E. intro H.
+  pose proof (ncf_fold (edges A cs) _ H) as Hncf.
+  exists (level (edges A cs)). intros c Hc h Hh l Hl.
+  pose proof (edges_In cs c h l Hc Hh Hl) as He. destruct l as [a|a]; simpl in *.
+  - apply (level_pos (edges A cs) Hncf h a He).
+  - apply (level_neg (edges A cs) Hncf h a He).
+Qed.
+
+Theorem neg_cycle_free_two_valued cs :
+  neg_cycle_free A eqb cs = Some true ->
+  forall w0 wt R, In (wt, R) (worlds A cs [] w0) ->
+  forall U m, wfm A eqb R U = Some m -> two_valued A eqb m = true.
+Proof.
+  intros H w0 wt R HR U [T Uk] Hm. destruct (neg_cycle_free_stratified cs H) as [lvl HS].
+  unfold two_valued. simpl. apply (subset_spec A eqb eqb_spec).
+  apply (stratified_two_valued lvl R U T Uk); [|exact Hm]. apply (world_stratified lvl cs w0 wt R HS HR).
+Qed.
+
+(* ------------------------------------------------------------------ bridge to wsum / prob_gen *)
+Lemma worlds_weight_irrel cs : forall acc w wt R, In (wt, R) (worlds A cs acc w) ->
+  forall w', exists wt', In (wt', R) (worlds A cs acc w').
+Proof.
+  induction cs as [|c cs IH]; intros acc w wt R H w'; simpl in *.
+  - destruct H as [E|[]]. inversion E; subst. exists w'. left. reflexivity.
+  - destruct c as [h b|hs b]; [apply (IH _ _ _ _ H)|].
+    apply in_app_or in H. destruct H as [H|H].
+    + apply in_flat_map in H. destruct H as [ph [Hph H]].
+      destruct (IH _ _ _ _ H (w' * fst ph)) as [wt' K]. exists wt'. apply in_or_app. left.
+      apply in_flat_map. exists ph. split; assumption.
+    + destruct (IH _ _ _ _ H (w' * (1 - sum_p hs))) as [wt' K]. exists wt'. apply in_or_app. right. exact K.
+Qed.
+
+Lemma lsum_ext_in {X} (hs : list (Q * X)) f g :
+  (forall ph, In ph hs -> f (snd ph) == g (snd ph)) -> lsum hs f == lsum hs g.
+Proof.
+  induction hs as [|[p x] hs IH]; simpl; intro H; [reflexivity|].
+  rewrite IH by (intros; apply H; right; assumption). rewrite (H (p, x)) by (left; reflexivity). reflexivity.
+Qed.
+
+Lemma wsum_zero F cs : forall acc,
+  (forall wt R, In (wt, R) (worlds A cs acc 1) -> F R == 0) -> wsum A F cs acc == 0.
+Proof.
+  induction cs as [|c cs IH]; intros acc H; simpl.
+  - apply (H 1 acc). simpl. left. reflexivity.
+  - destruct c as [h b|hs b].
+    + apply IH. intros wt R HR. apply (H wt R). simpl. exact HR.
+    + rewrite (ad_sum_expect A hs b acc (wsum A F cs)). unfold expect.
+      rewrite (lsum_ext_in hs _ (fun _ => 0)).
+      * rewrite lsum_zero. simpl. rewrite IH; [ring|]. intros wt R HR.
+        destruct (worlds_weight_irrel cs acc 1 wt R HR (1 * (1 - sum_p hs))) as [wt' K].
+        apply (H wt' R). simpl. apply in_or_app. right. exact K.
+      * intros ph Hph. simpl. apply IH. intros wt R HR.
+        destruct (worlds_weight_irrel cs _ 1 wt R HR (1 * fst ph)) as [wt' K].
+        apply (H wt' R). simpl. apply in_or_app. left. apply in_flat_map. exists ph. split; assumption.
+Qed.
+
+Theorem neg_cycle_free_not_NotTwoValued cs ev q :
+  neg_cycle_free A eqb cs = Some true -> prob_gen A eqb cs ev q <> NotTwoValued.
+Proof.
+  intros H. unfold prob_gen.
+  destruct (negb (Qeq_bool (wsum A (ind_fuel A eqb (universe A eqb cs)) cs []) 0)); [discriminate|].
+  assert (wsum A (ind_undef A eqb (universe A eqb cs) (fun _ => true)) cs [] == 0) as Z.
+  { apply wsum_zero. intros wt R HR. unfold ind_undef.
+    destruct (wfm A eqb R (universe A eqb cs)) as [m|] eqn:Em; [|reflexivity].
+    pose proof (neg_cycle_free_two_valued cs H 1 wt R HR _ m Em) as TV. unfold two_valued in TV.
+    assert (subset (filter (fun _ : A => true) (snd m)) (fst m) = true) as K.
+    { apply (subset_spec A eqb eqb_spec). apply (subset_spec A eqb eqb_spec) in TV.
+      intros a Ha. apply TV. apply filter_In in Ha. tauto. }
+    rewrite K. reflexivity. }
+  apply Qeq_bool_iff in Z. rewrite Z. simpl.
+  destruct (Qeq_bool _ 0); discriminate.
+Qed.
 
 End Strat.
